@@ -195,7 +195,22 @@ fn batches_to_rows(batches: Vec<arrow::record_batch::RecordBatch>, schema: arrow
     Ok(rows)
 }
 
+/// a standard reader that panics on the file did not read it back: that is a verdict about the file (the
+/// save reported success), not a failure of the harness
+fn reader_contained<R>(what: &str, f: impl FnOnce() -> Result<R, String>) -> Result<R, String> {
+    let _ = mcmc_sim::sim::take_last_panic();
+    match std::panic::catch_unwind(std::panic::AssertUnwindSafe(f)) {
+        Ok(r) => r,
+        Err(_) => Err(format!("{what} reader panicked on the file: {}", mcmc_sim::sim::take_last_panic().unwrap_or_else(|| "panic".into()))),
+    }
+}
 fn parse_arrow(bytes: &[u8], d: usize) -> Result<Vec<((u32, u32), Vec<f64>)>, String> {
+    reader_contained("arrow", || parse_arrow_inner(bytes, d))
+}
+fn parse_parquet(bytes: &[u8], d: usize, first: &str, second: &str) -> Result<Vec<((u32, u32), Vec<f64>)>, String> {
+    reader_contained("parquet", || parse_parquet_inner(bytes, d, first, second))
+}
+fn parse_arrow_inner(bytes: &[u8], d: usize) -> Result<Vec<((u32, u32), Vec<f64>)>, String> {
     let rdr = arrow::ipc::reader::FileReader::try_new(std::io::Cursor::new(bytes.to_vec()), None).map_err(|e| format!("arrow reader: {e}"))?;
     let schema = rdr.schema();
     let mut batches = vec![];
@@ -205,7 +220,7 @@ fn parse_arrow(bytes: &[u8], d: usize) -> Result<Vec<((u32, u32), Vec<f64>)>, St
     batches_to_rows(batches, schema, d, "chain", "observation")
 }
 
-fn parse_parquet(bytes: &[u8], d: usize, first: &str, second: &str) -> Result<Vec<((u32, u32), Vec<f64>)>, String> {
+fn parse_parquet_inner(bytes: &[u8], d: usize, first: &str, second: &str) -> Result<Vec<((u32, u32), Vec<f64>)>, String> {
     let b = bytes::Bytes::from(bytes.to_vec());
     let builder = parquet::arrow::arrow_reader::ParquetRecordBatchReaderBuilder::try_new(b).map_err(|e| format!("parquet reader: {e}"))?;
     let schema = builder.schema().clone();
